@@ -68,3 +68,61 @@ Proof.
   generalize (combine (wc_paths k) (wc_expands k)). intro l. induction l as [|a l IH]; simpl; auto.
   rewrite !CheckFacts.val_eqb_refl. simpl. exact IH.
 Qed.
+
+(* ---- the route contract, stated the way a router guarantees it ----
+   Both routers accept "/" ++ rest for the route /<prefix><delimiter><path:identifier> iff SOME decomposition
+   rest = p ++ d ++ i exists with a non-empty slash-free p and a non-empty i (which one they capture does not matter: the
+   handler re-joins the captures and splits again).  The model's handler tests the FIRST split only; the theorem shows that
+   this is the same condition, for every delimiter, as long as rest does not begin with the delimiter. *)
+Definition route_matches (d rest : str) : Prop :=
+  exists p i, rest = p ++ d ++ i /\ p <> [] /\ has_slash p = false /\ i <> [].
+Definition first_split_ok (d rest : str) : Prop :=
+  exists p i, partition d rest = Some (p, i) /\ p <> [] /\ has_slash p = false /\ i <> [].
+
+Lemma occurs_at_here d p i : occurs_at d (p ++ d ++ i) (length p) = true.
+Proof. unfold occurs_at. rewrite skipn_app_exact. apply prefixb_app. Qed.
+
+Lemma partition_le d p i : exists a b, partition d (p ++ d ++ i) = Some (a, b) /\ length a <= length p.
+Proof.
+  destruct (partition d (p ++ d ++ i)) as [[a b]|] eqn:E.
+  - exists a, b. split; auto. apply partition_some in E as [_ Hno].
+    destruct (Nat.le_gt_cases (length a) (length p)) as [L|G]; auto.
+    specialize (Hno (length p) G). rewrite occurs_at_here in Hno. discriminate.
+  - pose proof (partition_none _ _ E (length p)) as H. rewrite occurs_at_here in H. discriminate.
+Qed.
+
+Lemma has_slash_app a b : has_slash (a ++ b) = has_slash a || has_slash b.
+Proof. unfold has_slash. apply existsb_app. Qed.
+
+Lemma app_prefix_of {A} (a b p q : list A) : a ++ b = p ++ q -> length a <= length p -> exists t, p = a ++ t.
+Proof.
+  revert p; induction a as [|x a IH]; intros p E L; [exists p; reflexivity|].
+  destruct p as [|y p]; [simpl in L; lia|]. simpl in E. injection E as -> E.
+  destruct (IH p E) as [t ->]; [simpl in L; lia|]. exists t. reflexivity.
+Qed.
+
+Theorem route_first_split d rest : d <> [] -> prefixb d rest = false ->
+  (route_matches d rest <-> first_split_ok d rest).
+Proof.
+  intros Hd Hstart. split.
+  - intros (p & i & E & Hp & Hs & Hi). subst rest.
+    destruct (partition_le d p i) as (a & b & Pa & L). exists a, b. split; auto.
+    apply partition_some in Pa as [Eq _].
+    destruct (app_prefix_of _ _ _ _ (eq_sym Eq) L) as [t Et].
+    repeat split.
+    + intro Ea. subst a. simpl in Eq. rewrite Eq in Hstart. rewrite prefixb_app in Hstart. discriminate.
+    + rewrite Et, has_slash_app in Hs. apply orb_false_iff in Hs. apply Hs.
+    + intro Eb. subst b. assert (Len: length (p ++ d ++ i) = length (a ++ d ++ [])) by (rewrite Eq; reflexivity).
+      rewrite !app_length in Len. simpl in Len. destruct i; [congruence|simpl in Len; lia].
+  - intros (p & i & Pa & Hp & Hs & Hi). apply partition_some in Pa as [E _]. exists p, i. auto.
+Qed.
+
+(* hence: on a request the routers accept and that does not begin with the delimiter, the handler never answers 404 *)
+Theorem routed_not_404 d rs c rest : mk_conv true d rs = Val c -> d <> [] -> prefixb d rest = false ->
+  route_matches d rest -> resolve c rest <> NotFound404.
+Proof.
+  intros Hc Hd Hst Hr. apply (route_first_split d rest Hd Hst) in Hr as (p & i & Pa & Hp & Hs & Hi).
+  unfold resolve. rewrite (c_delim _ _ _ Hc), Pa.
+  destruct p; [congruence|]. destruct i; [congruence|]. cbn [is_nil orb]. rewrite Hs. cbn [orb].
+  destruct (expand_pair c _ _ false false) as [[l|]|e]; discriminate.
+Qed.
